@@ -7,7 +7,7 @@ from fractions import Fraction
 from .. import affine as A
 from ..symb import Sym
 from ..common import STEP_FN, RESET_FN, step_roles, init_roles
-from ..cp import row_writers, output_columns
+from ..cp import row_writers, output_columns, step_local
 from ..effects import stores
 from ..model import norm, walk_no_nested, AnalysisError
 from ..rdef import flow_of, ENTRY
@@ -118,9 +118,21 @@ def rule_a(chk, prog):
     f_BNS = formal_for(lambda a: isinstance(a, ast.Attribute) and a.attr == "biomass_ns")
     f_hiref = formal_for(lambda a: isinstance(a, ast.Attribute) and a.attr == "hi_ref")
     f_crop = formal_for(lambda a: isinstance(a, ast.Name) and a.id == "crop")
-    f_tr = formal_for(lambda a: isinstance(a, ast.Name) and a.id == "Tr")
-    f_trns = formal_for(lambda a: isinstance(a, ast.Name) and a.id == "TrPot_NS")
-    f_et0 = formal_for(lambda a: isinstance(a, ast.Name) and a.id == "et0")
+    # transpiration's results by provenance: the one reaching the Tr column; the one that reaches no column, is not the
+    # state and is not the net irrigation requirement (the no-stress potential); reference ET = element 3 of the weather row
+    tr_call = [c for c, t in prog.calls_in(step) if getattr(t, "name", None) == "transpiration"]
+    tr_tg = [n.targets[0].elts for n in walk_no_nested(step.node) if isinstance(n, ast.Assign) and tr_call and n.value is tr_call[0]
+             and isinstance(n.targets[0], ast.Tuple)]
+    L_tr, L_trpot, L_net = step_local(prog, "col:Tr"), step_local(prog, "col:TrPot"), step_local(prog, "irr_net")
+    tr_args = {a.id for a in tr_call[0].args if isinstance(a, ast.Name)} if tr_call else set()
+    rest = [t.id for t in (tr_tg[0] if tr_tg else []) if isinstance(t, ast.Name) and t.id not in (L_tr, L_trpot, L_net) and t.id not in tr_args]
+    L_trns = rest[0] if len(rest) == 1 else None
+    et0_defs = {n.targets[0].id for n in walk_no_nested(step.node) if isinstance(n, ast.Assign) and isinstance(n.targets[0], ast.Name)
+                and isinstance(n.value, ast.Subscript) and isinstance(n.value.slice, ast.Constant) and n.value.slice.value == 3
+                and isinstance(n.value.value, ast.Name) and n.value.value.id in step.params}
+    f_tr = formal_for(lambda a: isinstance(a, ast.Name) and a.id == L_tr)
+    f_trns = formal_for(lambda a: isinstance(a, ast.Name) and a.id == L_trns)
+    f_et0 = formal_for(lambda a: isinstance(a, ast.Name) and a.id in et0_defs)
     f_gs = formal_for(lambda a: isinstance(a, ast.Name) and a.id == "growing_season")
     if not all([f_B, f_BNS, f_hiref, f_crop, f_tr, f_trns, f_et0, f_gs]):
         raise AnalysisError("biomass_accumulation: cannot map the step's actual arguments to formals")
@@ -222,9 +234,10 @@ def rule_c(chk, prog, s, fs):
     flow = flow_of(step)
     # (IrrDay, IrrTot) pairing per method
     wf = row_writers(prog)["water_flux"]
+    L_day, L_tot, L_net, L_irr = (step_local(prog, k) for k in ("irr_day", "irr_tot", "irr_net", "irr"))
     defs = {}
     for n in walk_no_nested(step.node):
-        if isinstance(n, ast.Assign) and len(n.targets) == 1 and isinstance(n.targets[0], ast.Name) and n.targets[0].id in ("IrrDay", "IrrTot"):
+        if isinstance(n, ast.Assign) and len(n.targets) == 1 and isinstance(n.targets[0], ast.Name) and n.targets[0].id in (L_day, L_tot):
             defs.setdefault(flow.stmt_node[id(n)], n)
     by_block = {}
     for nid, n in defs.items():
@@ -232,16 +245,16 @@ def rule_c(chk, prog, s, fs):
         by_block.setdefault(cds, {})[n.targets[0].id] = n.value
     ok_pairs = 0
     for cds, d in by_block.items():
-        day, tot = d.get("IrrDay"), d.get("IrrTot")
+        day, tot = d.get(L_day), d.get(L_tot)
         txt = (norm(day) if day is not None else None, norm(tot) if tot is not None else None)
         tests = {(norm(flow.cfg.nodes[t].ast), l) for t, l in cds if flow.cfg.nodes[t].kind == "test"}
         m4 = any(t.endswith("irrigation_method == 4") and l is True for t, l in tests)
         not4 = any(t.endswith("irrigation_method == 4") and l is False for t, l in tests)
         construct = f"(IrrDay, IrrTot) = {txt}"
         if m4:
-            good = txt[0] == "IrrNet" and txt[1] is not None and txt[1].endswith(".irr_net_cum")
+            good = txt[0] == L_net and txt[1] is not None and txt[1].endswith(".irr_net_cum")
         elif not4:
-            good = txt[0] == "Irr" and txt[1] is not None and txt[1].endswith(".irr_cum")
+            good = txt[0] == L_irr and txt[1] is not None and txt[1].endswith(".irr_cum")
         else:
             good = txt == ("0", "0")
         ok_pairs += 1
@@ -252,13 +265,13 @@ def rule_c(chk, prog, s, fs):
                           loc=step.loc(day if day is not None else tot))
     chk.floor("C06.c-pairs", ok_pairs, 3, "definitions of the (IrrDay, IrrTot) pair")
     # final_stats[7] is IrrTot, water_flux.IrrDay is IrrDay
-    if norm(fs.value.elts[7]) == "IrrTot":
+    if norm(fs.value.elts[7]) == L_tot:
         chk.ok("C06.c", STEP_FN, "final_stats[7] == IrrTot")
     else:
         chk.violation("C06.c", STEP_FN, "final_stats[7] == IrrTot", f"seasonal irrigation column is {norm(fs.value.elts[7])}", loc=step.loc(fs))
     # PreIrr added to both the daily net requirement and the seasonal net counter
     st = s.state_in[s.cfg.node_of(wf).id]
-    irrnet = s.nf(ast.Name(id="IrrNet", ctx=ast.Load()), st)
+    irrnet = s.nf(ast.Name(id=L_net, ctx=ast.Load()), st)
     cum = None
     for k, v in st.env.items():
         if k.endswith(".irr_net_cum"):
@@ -282,12 +295,12 @@ def rule_c(chk, prog, s, fs):
     P = tr.params
     f_m = next(P[i] for i, a in enumerate(call.args) if isinstance(a, ast.Attribute) and a.attr == "irrigation_method")
     f_gs = next(P[i] for i, a in enumerate(call.args) if isinstance(a, ast.Name) and a.id == "growing_season")
-    f_st = next(P[i] for i, a in enumerate(call.args) if isinstance(a, ast.Name) and a.id == "NewCond")
+    f_st = next(P[i] for i, a in enumerate(call.args) if isinstance(a, ast.Name) and a.id == step_local(prog, "state"))
     sym = Sym(prog, tr, consts={f_gs: True, f_m: 4}, force={"TrPot > 0": True, "TrPot <= 0": False})
     rets = sym.at_return()
     ret_t = [r for r in walk_no_nested(tr.node) if isinstance(r, ast.Return)][0]
     tg = [n for n in walk_no_nested(step.node) if isinstance(n, ast.Assign) and n.value is call][0].targets[0].elts
-    pos = next(i for i, t in enumerate(tg) if isinstance(t, ast.Name) and t.id == "IrrNet")
+    pos = next(i for i, t in enumerate(tg) if isinstance(t, ast.Name) and t.id == L_net)
     for n, stt in rets:
         net = sym.nf(ret_t.value.elts[pos], stt)
         cumv = None
@@ -411,7 +424,7 @@ def tcols(chk, prog, rule="T-COLS"):
                     chk.violation(rule, STEP_FN, construct, f"column {c} must carry the value returned by {FLUX_SOURCE[c]}, it carries {A.text(s.nf(e, st))[:100]}",
                                   loc=step.loc(e))
             elif c == "IrrDay":
-                if norm(e) == "IrrDay":
+                if isinstance(e, ast.Name):     # its definitions are paired with the seasonal counter by C06.c
                     chk.ok(rule, STEP_FN, construct)
                 else:
                     chk.violation(rule, STEP_FN, construct, "column IrrDay does not carry the daily irrigation selected for the method", loc=step.loc(e))
